@@ -16,6 +16,7 @@ from gvsim.lib import ACTIONS
 
 PROP = 'C20'
 TIERS = {'quick': {'runs': 1200, 'wall': 100}, 'thorough': {'runs': 30000, 'wall': 1500}}
+REACH = ['representation_switch', 'representation_switch_via_wrapper', 'wrapper_op', 'representation_switch_mid_episode']  # probes / faults that must fire in every batch (reach gaps are reported in the evidence)
 RULE = ('one run = 1-2 gym-level clients (every shipped configuration, built directly, through gym.make(id).unwrapped '
         'and through the registry spec\'s factory; with and without GymStateWrapper) under a seeded op list of reset / '
         'step(index) / representation switches at arbitrary points / space reads, interleaved with adversary noise on '
